@@ -276,5 +276,5 @@ RULES = [
     ('C16-R1', r1_ont, 300),
     ('C16-R2', r2_no_hidden_state, 300),
     ('C16-R3', r3_memo_purity, 1),
-    ('C16-R4', r4_no_shared_objects, 10),
+    ('C16-R4', r4_no_shared_objects, 4),
 ]
